@@ -341,7 +341,7 @@ end Assembly
 /-! ### `MatrixSubproblemSolver`: arguments of `MatrixATADSolver` -/
 
 section MatrixSub
-variable {K : Type} [Field K] [HasConj K] {m n : Nat}
+variable {K : Type} [Field K] [HasConj K] [HasIsZero K] {m n : Nat}
 
 theorem DMat.smul_entry (c : K) (D : DMat K n) (i j : Fin n) : (D.smul c).entry i j = c * D.entry i j := by
   cases D with
